@@ -288,18 +288,23 @@ pub fn parse_file_internal(context: &ParseContext) -> Result<(), Error> {
 #[derive(Clone, Copy, PartialEq, Eq, Debug)]
 pub enum NextItem {
     NewLine,
+    /// Skip to the next arm of the conditional (.elif, .else) or to its .endif
     EndIf,
+    /// An arm of the conditional was assembled: skip all remaining arms, up to its .endif
+    EndChain,
     EndMacro,
     EndFile,
 }
 
+/// Returns the next line to assemble and whether it is an `.elif` whose condition decides the arm
 fn skip<'a>(
     iter: &mut dyn Iterator<Item = (usize, &'a str)>,
     context: &ParseContext,
     ni: NextItem,
-) -> Option<(usize, &'a str)> {
+) -> (Option<(usize, &'a str)>, bool) {
     let mut scoup_count = 0;
-    match ni {
+    let mut at_elif = false;
+    let next = match ni {
         NextItem::NewLine => iter.next(),
         NextItem::EndFile => None,
         other => {
@@ -325,7 +330,7 @@ fn skip<'a>(
                 while let Some((num, line)) = iter.next() {
                     if let Ok(item) = document::line(line) {
                         if let Document::DirectiveLine(_, directive, _) = item {
-                            if other == NextItem::EndIf {
+                            if other == NextItem::EndIf || other == NextItem::EndChain {
                                 if directive == Directive::If
                                     || directive == Directive::IfDef
                                     || directive == Directive::IfNDef
@@ -336,12 +341,18 @@ fn skip<'a>(
                                     || directive == Directive::ElIf
                                 {
                                     if scoup_count == 0 {
-                                        ret = if directive == Directive::ElIf {
-                                            Some((num, line))
-                                        } else {
-                                            iter.next()
-                                        };
-                                        break;
+                                        if directive == Directive::Endif {
+                                            ret = iter.next();
+                                            break;
+                                        } else if other == NextItem::EndIf {
+                                            if directive == Directive::ElIf {
+                                                ret = Some((num, line));
+                                                at_elif = true;
+                                            } else {
+                                                ret = iter.next();
+                                            }
+                                            break;
+                                        }
                                     } else {
                                         if directive == Directive::Endif {
                                             scoup_count -= 1;
@@ -355,7 +366,8 @@ fn skip<'a>(
             }
             ret
         }
-    }
+    };
+    (next, at_elif)
 }
 
 pub fn parse(input: &str, context: &ParseContext) -> Result<(), Error> {
@@ -371,7 +383,8 @@ pub fn parse_iter<'a>(
     let mut next_item = NextItem::NewLine;
 
     loop {
-        if let Some((line_num, line)) = skip(iter, context, next_item) {
+        let (next, at_elif) = skip(iter, context, next_item);
+        if let Some((line_num, line)) = next {
             next_item = NextItem::NewLine; // clear conditional flag to typical state
             let line_num = line_num + 1;
             let parsed_item = document::line(line);
@@ -403,8 +416,14 @@ pub fn parse_iter<'a>(
                                 ));
                             }
                         }
-                        let item = d.parse(&d_op_args, &context, CodePoint { line_num, num: 2 })?;
-                        next_item = item;
+                        if d == Directive::ElIf && !at_elif {
+                            // reached while assembling: an earlier arm was taken, the rest of the chain is not
+                            next_item = NextItem::EndChain;
+                        } else {
+                            let item =
+                                d.parse(&d_op_args, &context, CodePoint { line_num, num: 2 })?;
+                            next_item = item;
+                        }
                     }
                     Document::EmptyLine => {}
                     _ => {}
